@@ -9,6 +9,9 @@ Driver for property C09.  One scenario per line:
       endpoint = `U:<path>:<args>` | `T:<host>:<port>:<args>`, args = `k=v,k=v` with v = `s<hex>` | `T`, `-` when empty
 
   life <pid> <addr> <ev>*      the repaired code (pid = str(os.getpid()) as str-hex, for unix:tmpdir= entries) (model of the tree with fixes/C09-*)
+  proc <pid> <addr> <ev>* [/ <ev>*]*   one process that calls client.connect SEVERAL times with the same address string
+      (reconnect after a loss, connections side by side); `/` separates the histories of the connections
+      -> the `life` answers of the connections joined by ` // `
   lifeorig <addr> <ev>*  the pinned, unrepaired code (used by hand to validate the witness theorems)
       -> `<fx>* | ph=<phase> fired=<results> pend=<serial[t]>* timers=<serial>* dc=<ids> reg=<proxy ids> prox=<id:alive:cbs>*`
          or `parse-err <kind>` when the address does not parse
@@ -148,6 +151,25 @@ def lifeLine (v : Variant) (pid : String) (addr : String) (evs : List String) : 
       " ".intercalate (s.log.map fxStr) ++ " | " ++ stateStr s
   | _, _, _ => "bad-input"
 
+def stateLine (s : St) : String :=
+  " ".intercalate (s.log.map fxStr) ++ " | " ++ stateStr s
+
+/-- The token list of `proc`, cut at the `/` tokens. -/
+def splitRounds : List String → List (List String)
+  | [] => [[]]
+  | t :: ts =>
+    match splitRounds ts with
+    | [] => [[t]]
+    | r :: rs => if t == "/" then [] :: r :: rs else (t :: r) :: rs
+
+def procLine (pid : String) (addr : String) (toks : List String) : String :=
+  match hexToChars? addr, hexToChars? pid, (splitRounds toks).mapM (fun r => r.mapM parseEv) with
+  | some a, some pid, some hs =>
+    " // ".intercalate ((connectMany .repaired { session := none, system := none, pid := pid } a hs).map fun
+      | .ok s => stateLine s
+      | .error e => "parse-err " ++ errName e)
+  | _, _, _ => "bad-input"
+
 def step (line : String) : String :=
   match words line with
   | ["parse", a, se, sy, pid] =>
@@ -158,6 +180,7 @@ def step (line : String) : String :=
       | .error e => "err " ++ errName e
     | _, _, _, _ => "bad-input"
   | "life" :: pid :: a :: evs => lifeLine .repaired pid a evs
+  | "proc" :: pid :: a :: toks => procLine pid a toks
   | "lifeorig" :: pid :: a :: evs => lifeLine .original pid a evs
   | "life5" :: pid :: a :: evs => lifeLine .fiveFixes pid a evs
   | _ => "bad-input"
